@@ -269,6 +269,27 @@ def loop_twice_instance(rng, cls):
     return inst
 
 
+def pendant_cycle_instance(rng, cls):
+    """a cycle hanging at a node v of the main route (the walk enters and leaves the SCC at the same node), followed by a
+    fork: the safe sequence holds the entry and exit edges of v next to each other with no SCC edge between them"""
+    w = rng.choice([1, 2, 3]); m = rng.choice([1, 2])
+    L = rng.choice([1, 2, 3])
+    cyc = ["v"] + [f"x{i}" for i in range(1, L)] + ["v"]
+    fl = {("s", "v"): 2 * w, ("v", "t"): 2 * w, ("t", "p"): w, ("t", "q"): w}
+    for e in zip(cyc[:-1], cyc[1:]):
+        fl[e] = m * w                      # one of the two walks goes round m times
+    edges = list(fl)
+    nodes = sorted({x for e in edges for x in e}); rng.shuffle(nodes); rng.shuffle(edges)
+    inst = {"cls": cls, "nodes": nodes, "edges": [list(e) for e in edges], "origin": "edge", "weight_type": "int",
+            "constraints": [], "coverage": "1", "ignore": [], "starts": [], "ends": [], "options": {},
+            "flow": [[u, v, str(fl[(u, v)])] for (u, v) in edges]}
+    if cls in models.HAS_K:
+        inst["k"] = 2
+    if cls in models.COVER:
+        inst.pop("flow")
+    return inst
+
+
 def crossing_instance(rng, cls):
     """two flows crossing at a node: greedy pairs the heavy in-edge with the heavy out-edge, a constraint asks for the
     heavy in-edge followed by the light out-edge with a fractional coverage threshold (2 edges at 3/4 -> 1.5)"""
@@ -307,7 +328,7 @@ def rounding_instance(rng, cls):
 
 def gen_inst(rng, cls):
     if models.is_cyc(cls) and rng.random() < 0.5:
-        return loop_twice_instance(rng, cls)
+        return loop_twice_instance(rng, cls) if rng.random() < 0.6 else pendant_cycle_instance(rng, cls)
     if cls in ("kFlowDecomp", "MinFlowDecomp") and rng.random() < 0.4:
         inst = rounding_instance(rng, cls)
         inst["starts"], inst["ends"], inst["ignore"] = [], [], []
